@@ -567,6 +567,76 @@ ROLE_PROTOCOLS = {
 }
 
 
+# helper functions whose protocol is parameterised by one party-valued parameter; conventions of the other parameters from
+# the comment block above the function ("c" = integers known to their owner S; "b" = replicated sharing; "prf_keys" = the
+# multiplication key triple: component j held by parties j and j-1)
+ROLE_FUNCTIONS = {
+    "mpc::mpc_arithmetic::multiply_bits_by_public_integers": {
+        "role_param": "integer_owner_id",
+        "params": {"c": "S", "b": "triple", "prf_keys": "triple"},
+    },
+}
+
+
+def role_functions(facts, rep):
+    from ..knowledge import Knowledge
+    Knowledge.ROLE_OPS = {n.split(" as ")[0].lstrip("<"): spec for n, spec in ROLE_PROTOCOLS.items()}
+    judged = 0
+    for name, spec in sorted(ROLE_FUNCTIONS.items()):
+        b = facts.body(name)
+        if not rep.anchor("C02.W", name, b):
+            continue
+        byname = {b.var_name(l): l for l in range(1, b.argc + 1)}
+        if not rep.anchor("C02.W", "%s|parameters %s" % (name, sorted(spec["params"]) + [spec["role_param"]]),
+                          all(x in byname for x in list(spec["params"]) + [spec["role_param"]])):
+            continue
+        verdicts = {}
+        for owner in range(3):
+            env = {("param", byname[spec["role_param"]]): owner}
+            ph = {}
+            for pn, conv in spec["params"].items():
+                ph[byname[pn]] = "triple" if conv == "triple" else frozenset({"S": owner}[c] for c in conv)
+            kn = Knowledge(facts, b, env=env, param_holders=ph)
+            for k, (nb, (snd, rcv)) in enumerate(sorted(kn.sends.items())):
+                src = kn.node_args(b.term(nb))
+                if snd is None or not src:
+                    continue
+                K, exact = kn.of_operand(src[0], (nb, None))
+                if exact:
+                    verdicts.setdefault(("sender#%d" % k, nb), []).append((owner, snd in K, "Send(%s,%s) payload known to %s" % (snd, rcv, sorted(K))))
+            # arguments handed to a role protocol must be held by the roles that protocol assumes
+            for bb, t in b.calls():
+                if b.is_cleanup(bb) or callee_name(t) != "graphs::Graph::custom_op":
+                    continue
+                ro = kn.role_op(bb)
+                if ro is None:
+                    continue
+                rspec, who, _ = ro
+                comps = kn.tuple_components(bb)
+                if who is None or not comps:
+                    verdicts.setdefault(("role-op-resolved", bb), []).append((owner, False, "role fields or argument vector not resolved"))
+                    continue
+                for i, (op_, at_) in enumerate(comps):
+                    if i not in rspec["inputs"]:
+                        continue
+                    K, exact = kn.of_operand(op_, at_)
+                    if not exact:
+                        continue
+                    need = {who[c] for c in rspec["inputs"][i]}
+                    verdicts.setdefault(("sub-protocol-arg#%d" % i, bb), []).append(
+                        (owner, need <= set(K), "argument %d known to %s, the sub-protocol assumes it is held by %s" % (i, sorted(K), sorted(need))))
+        short = name.split("::")[-1]
+        for (key, bb), vs in sorted(verdicts.items()):
+            if len(vs) != 3:
+                continue
+            judged += 1
+            bad = [v for v in vs if not v[1]]
+            rep.ob("C02.W", "%s|roles|%s" % (short, key), not bad,
+                   "for every owner of the public integers: %s" % vs[0][2] if not bad else
+                   "for integer owner %s: %s" % (bad[0][0], bad[0][2]), b.loc(bb))
+    return judged
+
+
 def role_protocols(facts, rep):
     from ..knowledge import Knowledge
     judged = 0
@@ -692,6 +762,7 @@ def knowledge_typing(facts, rep):
                        "Send(%s,%s) inside the closure: party %s sends a value that only parties %s can compute" % (s_, r_, s_, sorted(K)),
                        cb.loc(nb))
     judged += role_protocols(facts, rep)
+    judged += role_functions(facts, rep)
     rep.analysed["knowledge_typed_judgements"] = judged
     rep.floor("C02.W", "exact ownership judgements", judged, 2)
 
